@@ -20,6 +20,8 @@
          the rewrite logic relies on it when it skips REMOVED children);
        * the entry of slot s has a different text  -> the slot is OVERWRITTEN by
          (cmd, empty block), in place - at the end of the level if the rule is %ordered;
+       (a level holds at most one entry per slot - the property's domain, preserved by
+       every command; should there be several, the first one is meant)
    - otherwise [cmd] is read as a REMOVAL: every entry whose rule's reverse template,
      filled with the entry's key, equals [cmd] is deleted with its subtree; if there is
      none nothing happens.  In particular rows that no rule knows are never touched, and
@@ -78,14 +80,28 @@ Section Device.
   Definition enter (crs : rset) (sub : forest) : forest :=
     filter (fun e => match slot_of crs (fst e) with Some m => negb (is_rewrite m) | None => true end) sub.
 
+  (* replace / delete the (first) entry of slot s; the level is unchanged if the slot is free *)
+  Fixpoint replace_slot (rs : rset) (s : minfo) (e' : string * tree) (f : forest) : forest :=
+    match f with
+    | [] => []
+    | e :: f' => if in_slot rs s e then e' :: f' else e :: replace_slot rs s e' f'
+    end.
+  Fixpoint remove_slot (rs : rset) (s : minfo) (f : forest) : forest :=
+    match f with
+    | [] => []
+    | e :: f' => if in_slot rs s e then f' else e :: remove_slot rs s f'
+    end.
+
   Definition exec_direct (rs : rset) (cmd : string) (s : minfo) (crs : rset) (f : forest) : forest :=
-    if existsb (in_slot rs s) f then
-      if is_ordered s && negb (existsb (fun e => in_slot rs s e && String.eqb (fst e) cmd) f)
-      then filter (fun e => negb (in_slot rs s e)) f ++ [(cmd, T [])]
-      else map (fun e => if in_slot rs s e
-                         then (if String.eqb (fst e) cmd then (cmd, T (enter crs (kids (snd e)))) else (cmd, T []))
-                         else e) f
-    else f ++ [(cmd, T [])].
+    match find (in_slot rs s) f with
+    | None => f ++ [(cmd, T [])]                                            (* free slot: append *)
+    | Some e =>
+      if String.eqb (fst e) cmd
+      then replace_slot rs s (cmd, T (enter crs (kids (snd e)))) f          (* same text: enter *)
+      else if is_ordered s
+           then remove_slot rs s f ++ [(cmd, T [])]                         (* %ordered: re-created at the end *)
+           else replace_slot rs s (cmd, T []) f                             (* overwritten in place *)
+    end.
 
   Definition exec_cmd (rs : rset) (cmd : string) (f : forest) : forest :=
     if is_exit cmd then f
@@ -120,7 +136,11 @@ Section Device.
     fold_left (fun acc p => exec_path rs p acc) paths f.
 End Device.
 
-Definition v_is_exit (v : vendor) (c : string) : bool := existsb (String.eqb c) (family_exits (v_family v)).
+(* the vendor's exit words: registry[vendor].exit (the word the orderer pins last) and the
+   words its formatter emits *)
+Definition v_exits (v : vendor) : list string :=
+  (if is_empty (v_exit v) then [] else [v_exit v]) ++ family_exits (v_family v).
+Definition v_is_exit (v : vendor) (c : string) : bool := existsb (String.eqb c) (v_exits v).
 
 (* the device instantiated with the shared row-pattern compiler *)
 Definition p_exec (v : vendor) (rs : rset) (paths : list (list string)) (f : forest) : forest :=
